@@ -130,7 +130,8 @@ EDITS = ["pop-keyword", "append", "leaves", "clear-top", "clear-deep", "reverse"
 def reuse_cases(cfg, rng, S, pool, quick):
     """a returned token tree belongs to the caller: texts are parsed, the results destroyed in place, and the same texts
     parsed again (one statement of every kind on its own; the same text twice; a document, then its statements; a
-    statement repeated inside one document; mixed sequences with rejected texts; through one re-written file)"""
+    statement repeated inside one document; mixed sequences with rejected texts; through one re-written file; through
+    files written once and read by name repeatedly)"""
     by_kind = {}
     for c in S["valid"]:
         by_kind.setdefault(c["kind"], []).append(c["text"])
@@ -156,6 +157,22 @@ def reuse_cases(cfg, rng, S, pool, quick):
         else:
             texts = [whole]
         out.append({"kind": "reuse", "texts": texts, "edit": rng.choice(EDITS), "via": "file" if j % 3 == 2 else "string"})
+    # files that are written once and read by name again and again (a library of domain definitions): every edit in turn,
+    # on a document, on a document and some of its statements, on one statement read twice, on mixed sequences
+    for j in range(2 * len(EDITS) if quick else 20 * len(EDITS)):
+        dc = rng.choice(S["documents"])
+        whole = dc["prologue"] + "".join(dc["texts"])
+        shape = j % 4
+        if shape == 0:
+            texts = [whole]
+        elif shape == 1:
+            texts = [whole] + rng.sample(dc["texts"], min(len(dc["texts"]), rng.randint(1, 2)))
+        elif shape == 2:
+            t = rng.choice(valid)
+            texts = [t, t]
+        else:
+            texts = [rng.choice(pool) for _ in range(rng.randint(2, 3))] + [whole]
+        out.append({"kind": "reuse", "texts": texts, "edit": EDITS[j % len(EDITS)], "via": "path"})
     return out
 
 
